@@ -2274,7 +2274,8 @@ class AddSuffix(AddPrefix):
 
     def _convert_columns(self, columns):
         len_suffix = len(self.suffix)
-        return [col[:-len_suffix] for col in columns]
+        # not col[:-len_suffix]: that is the empty string for an empty suffix
+        return [col[: len(col) - len_suffix] for col in columns]
 
 
 class AssignIndex(Elemwise):
